@@ -11,6 +11,8 @@ Decided (DESIGN.md §C12): the explicit integrator Phreeqc::rk_kinetics is a *co
   C12.lowexit   the early exits (-runge_kutta 1/2/3, taken only when all stage rates are equal) use weights summing to 1
   C12.partialstep  blocks that shorten the step before the early-exit tests also clear equal_rate (else a one-step exit
                 integrates only part of the interval)
+  C12.trialreset every Runge-Kutta stage evaluation is followed by the restore of the saved pure-phase / solid-solution assemblages
+  C12.clamp     the exhaustion cap of calc_final_kinetic_reaction tests and assigns the same bound
   C12.errmax    the step-acceptance error is the running maximum over all reactants (reset before, max-update inside the loop)
   C12.cvode     CVODE restart loop: elapsed time and restored state come from the same checkpoint (cvode_last_good_*), the
                 remaining time is tout - sum_t (one structural clause of the stiff-integrator path; the rest of it is undecided)
@@ -608,6 +610,49 @@ def run(P, R, tier):
     cvode_restart_rule(P, R)
     errmax_rule(P, R)
     clamp_rule(P, R)
+    trialreset_rule(P, R)
+
+
+def trialreset_rule(P, R, RULE="C12.trialreset"):
+    """Every Runge-Kutta stage of rk_kinetics is a TRIAL: the reaction increments are applied, the system is equilibrated to
+    evaluate the rates, and the pure-phase and solid-solution assemblages - which the equilibration modifies in the store - are
+    put back to the state of the last saver() before the next stage or the final, accepted evaluation.  In the step loop every
+    stage evaluation (a top-level calc_kinetic_reaction) is therefore followed, before the next stage evaluation and before the
+    error estimate, by the restore of BOTH saved assemblages.  A stage without it lets the final evaluation start from
+    assemblages that already contain a trial's transfer: that transfer is counted twice."""
+    R.rule(RULE, "rk_kinetics: every stage evaluation is followed by the restore of the saved pure-phase and solid-solution assemblages", minimum=5)
+    f = P.one("Phreeqc::rk_kinetics")
+    where = dict(file=f["file"], function=f["q"])
+
+    def restores(st, which):
+        return st[0] == "If" and which + "_assemblage_save" in T.text(st[2]) and any(
+            T.callee_name(c) == "operator=" and "Rxn_%s_assemblage_map" % which in T.text(c) for c in T.calls(st[3]))
+    best = None
+    for x in T.walk(f["body"]):
+        if x[0] in ("While", "Do"):
+            body = x[3] if x[0] == "While" else x[2]
+            if T.is_node(body) and body[0] == "Compound":
+                n_e = sum(1 for st in body[2] if T.is_node(st) and st[0] == "Call" and T.callee_name(st) == "calc_kinetic_reaction")
+                if n_e >= 3 and (best is None or n_e > best[0]):
+                    best = (n_e, body)
+    if best is None:
+        R.anchor_missing(RULE, "rk_kinetics: step loop with top-level stage evaluations not found")
+        return
+    stm = [st for st in best[1][2] if T.is_node(st)]
+    evals = [i for i, st in enumerate(stm) if st[0] == "Call" and T.callee_name(st) == "calc_kinetic_reaction"]
+    errs = [i for i, st in enumerate(stm) if st[0] == "Bin" and T.text(st[3]) == "error_max"]
+    for n_, i in enumerate(evals):
+        nxt = min([j for j in evals + errs if j > i] or [len(stm)])
+        seg = stm[i + 1:nxt]
+        got = [w for w in ("pp", "ss") if any(restores(st, w) for st in seg)]
+        inst = "stage-eval@%d" % stm[i][1]
+        if got == ["pp", "ss"]:
+            R.ok(RULE, inst, "followed by the restore of both saved assemblages")
+        else:
+            miss = [w for w in ("pp", "ss") if w not in got]
+            R.violation(RULE, inst, "the stage evaluation at line %d is not followed by the restore of the saved %s assemblage before the next evaluation / the error estimate: the accepted "
+                        "step is evaluated on an assemblage that already holds a trial's transfer (counted twice)" % (stm[i][1], " and ".join("pure-phase" if w == "pp" else "solid-solution" for w in miss)),
+                        line=stm[i][1], **where)
 
 
 def clamp_rule(P, R):
